@@ -1,0 +1,6 @@
+// Declares the cfg names used by the verification hooks so that `unexpected_cfgs` stays quiet.
+fn main() {
+    println!("cargo::rustc-check-cfg=cfg(isographlabs_isograph_verif)");
+    println!("cargo::rustc-check-cfg=cfg(isographlabs_isograph_verif_loom)");
+    println!("cargo::rerun-if-changed=build.rs");
+}
